@@ -8,9 +8,9 @@ import (
 	"io"
 	"os"
 	"os/exec"
-	"strconv"
 	"path/filepath"
 	"runtime"
+	"strconv"
 	"strings"
 	"sync"
 	"testing"
